@@ -116,6 +116,47 @@ CHECKS = {
     note="exec/os are the platform's. The key-to-hook path (o, p, b, number+Enter, media type defaults) is covered by the UI/item checks.",
     technique="Coq proof (list recursion over argv) + differential correspondence through real exec",
     design="5/C20"),
+ "C02": dict(
+    text="Proof: fetch_unknown_provenance - for EVERY world of servers (attacker-controlled hosts included), every cache that only "
+         "holds answers servers really gave, every input and source: an object accepted WITH an id was served, after redirects, by "
+         "the host named in the id (top-level document from that host or embedded in one); plus fetch_url_served, cache soundness "
+         "preservation, fetch_unknown_no_id. Tie: client.FetchUnknown driven against multi-host loopback TLS worlds (lying ids, stubs, "
+         "open and cross-host redirects, random orders, cache sizes 1/2/128); results and request sequences equal Client.fetch_unknown "
+         "and an independent oracle checks the host stamp of every accepted object against its id.",
+    note="net/url, encoding/json, TLS are library oracles (universally quantified in the theorems). The call discipline of the pub "
+         "constructors (which source they pass) is covered by the listings check C09 when it lands.",
+    technique="Coq proof (case analysis of the provenance rule over a cache-soundness invariant) + differential correspondence against a multi-host TLS simulator",
+    design="5/C02"),
+ "C03": dict(
+    text="Proof: cold_sound / cold_complete (a document iff a chain of <= budget https redirects, each Location resolved against its "
+         "issuer, ending in a 200-203 response with valid headers and an object body; source = final URL; requests = the chain), "
+         "classify_doc, validate_headers_spec, get_requests (<= budget+1 requests whatever the cache holds), get_cache_sound, "
+         "cache_transparent_partial (every history, every capacity, when no finite chain exceeds the budget) and "
+         "cache_transparent_refuted (21-hop witness). Tie: jtp.Get/client.FetchURL against the simulator over a response grammar and "
+         "redirect graphs, fetch sequences, cache sizes 1,2,3,128: document, source and exact request sequence equal Jtp.get.",
+    note="KNOWN FINDING C03/redirect-chain-longer-than-budget (printed as KNOWN-FINDING). Regexes modelled as deterministic scanners; "
+         "LRU modelled exactly; libraries are oracles.",
+    technique="Coq proof (induction on the redirect budget, cache invariants) + differential correspondence against a TLS simulator",
+    design="5/C03"),
+ "C04": dict(
+    text="Proof: request_shape, request_single (a recognised stream is exactly one request line + Host + Accept, no body, no second "
+         "request), injection_refused, no_plaintext (requests only for https URLs on every hop), request_needs_dial. Tie: the simulator "
+         "records every byte of every connection and counts plaintext connections to a canary port; the verified recogniser "
+         "parse_request judges each recorded stream; hostile URLs (encoded CR/LF, userinfo, ports, schemes) and hostile Locations.",
+    note="url.Parse rejects raw control characters (library); a raw space in a query is kept by net/url (documented quirk, still one "
+         "request line).",
+    technique="Coq proof (byte-level recogniser soundness/completeness) + recorded-bytes oracle on a TLS simulator",
+    design="5/C04"),
+ "C05": dict(
+    text="PARTIAL. Proved: prefix_error / header_cut (a response cut at ANY byte is an error, never a document), "
+         "no_doc_without_object, fault_total, hops_bounded and fetch_time (<= (budget+1)*2T given per-step deadlines). Observed, not "
+         "proved: wall-clock - every cut point of a response corpus (exhaustive, byte by byte), stalls before/after the handshake, in "
+         "status line/headers/body, resets, trickles, at first and later hops with timeout_seconds = 1; each fetch must end in an "
+         "error within hops*2T+0.7s and the process must survive.",
+    note="What the model cannot exhibit: scheduler latency, kernel socket behaviour, TLS record boundaries, Go's deadline "
+         "implementation. timeout_seconds = 0 means no timeout by design.",
+    technique="Coq proof of the truncation/attempt-count logic + fault-injection observation of timing (partial)",
+    design="5/C05"),
 }
 PENDING_REASON = "check not built yet in this session (work in progress; planned in DESIGN.md section 5)"
 
